@@ -201,16 +201,29 @@ pub fn total_payload<const NV: usize, const NA: usize>() -> u64 {
     s
 }
 
-pub fn reset_moov_stub(len: usize) {
+
+// ---------------------------------------------------------------------------------------
+// The moov stand-in records the tables it is handed into a carrier owned by the harness
+// (hook: mp4::verif::MoovCarrier); finalize is called with `&carrier.track`.
+// ---------------------------------------------------------------------------------------
+pub fn carrier(stub_len: usize) -> mp4h::MoovCarrier {
     unsafe {
-        mp4h::MOOV_STUB_LEN = len;
-        mp4h::MOOV_CALLS = 0;
-        mp4h::MOOV_LAST = [None, None];
+        mp4h::MOOV_USE_CARRIER = true;
+    }
+    mp4h::MoovCarrier::new(64, 48, stub_len)
+}
+/// API-level harnesses cannot pass a carrier (the track struct is built inside the API):
+/// the stand-in then records nothing and returns 8 tagged bytes.
+pub fn no_carrier() {
+    unsafe {
+        mp4h::MOOV_USE_CARRIER = false;
     }
 }
-pub fn moov_calls() -> usize {
-    unsafe { mp4h::MOOV_CALLS }
-}
-pub fn moov_call(i: usize) -> mp4h::MoovCall {
-    unsafe { mp4h::MOOV_LAST[i].unwrap() }
+/// the tables of the LAST moov build (the one whose bytes are written)
+pub fn final_call(c: &mp4h::MoovCarrier) -> mp4h::MoovCall {
+    if c.calls.get() >= 2 {
+        c.call1.get()
+    } else {
+        c.call0.get()
+    }
 }
